@@ -211,26 +211,30 @@ impl Prop for C18 {
                 }
             }
         }
-        // no descriptor left for the backing file
-        for size in [4096usize, 65536, 1 << 20] {
-            let args = vec!["child".to_string(), "nofile".into(), size.to_string()];
+        // no descriptor left for the backing file, or a backing file that cannot be made large
+        // enough (file size limit below the buffer size)
+        for (size, limit) in [(4096usize, None), (65536, None), (1 << 20, None), (65536, Some(4096u64)), (1 << 20, Some(65536)), (8192, Some(0))] {
+            let mut args = vec!["child".to_string(), "nofile".into(), size.to_string()];
+            if let Some(l) = limit {
+                args.push(format!("fsize:{l}"));
+            }
             let (code, out) = run_child(&args, 60);
             ev.evaluations += 1;
             let cj = json!({"child": args});
             match (code, parse_child(&out)) {
                 (Some(0), Some(v)) => {
                     ev.nontrivial_hashes.insert(hash_json(&cj));
-                    *ev.classes.entry("nofile-injected-failure".into()).or_default() += 1;
+                    *ev.classes.entry(if limit.is_some() { "fsize-injected-failure" } else { "nofile-injected-failure" }.into()).or_default() += 1;
                     let ok = v["probe_ok"].as_bool() == Some(true) && v["data_ok"].as_bool() == Some(true) && v["after"] == v["base"];
                     if !ok {
                         ev.failures.push((
-                            Failure { sig: "C18/fault/nofile".into(), msg: format!("with no descriptor available, Buffer::new({size}) => set-up ok: {}, buffer whole: {}, mappings/fds {} -> {}", v["setup_ok"], v["data_ok"], v["base"], v["after"]) },
+                            Failure { sig: if limit.is_some() { "C18/fault/fsize" } else { "C18/fault/nofile" }.into(), msg: format!("with {}, Buffer::new({size}) => set-up ok: {}, buffer whole: {}, mappings/fds {} -> {}", match limit { Some(l) => format!("a file size limit of {l} bytes"), None => "no descriptor available".to_string() }, v["setup_ok"], v["data_ok"], v["base"], v["after"]) },
                             cj,
                         ));
                     }
                 }
                 (code, _) => ev.failures.push((
-                    Failure { sig: "C18/fault/nofile-child-died".into(), msg: format!("child {args:?} ended with {code:?}: {}", out.chars().take(300).collect::<String>()) },
+                    Failure { sig: if limit.is_some() { "C18/fault/fsize-child-died" } else { "C18/fault/nofile-child-died" }.into(), msg: format!("child {args:?} ended with {code:?} (a buffer over a backing file that is too short dies on first access): {}", out.chars().take(300).collect::<String>()) },
                     cj,
                 )),
             }
